@@ -152,7 +152,9 @@ def _shown(c, text, pos):
 
 
 HUGE = [10 ** 5000, [10 ** 5000], {'a': -10 ** 5000}, (1, 10 ** 5000),       # values whose str() raises (int str-digits limit)
-        {10 ** 5000: 1}, {'a': 1, 10 ** 5000: 1, 'zz': 2}, {'k': {10 ** 5000: 1}}, [{-10 ** 5000: 'x'}]]    # ... and keys
+        {10 ** 5000: 1}, {'a': 1, 10 ** 5000: 1, 'zz': 2}, {'k': {10 ** 5000: 1}}, [{-10 ** 5000: 'x'}],    # ... and keys
+        # a value whose str() renders another pane error while the outer message is being written
+        [1, grammar.NestedRender()], {'a': [1, grammar.NestedRender()]}, {'k': grammar.NestedRender()}, {'a': {'b': grammar.NestedRender()}}]
 
 
 def _components(node, depth=0):
